@@ -2,6 +2,7 @@
 from .terms import walk, is_const, mentions, strip_wrappers, show
 from .engine import flat_events
 from .repo import AnalysisError
+from . import names
 
 
 # -- frames -------------------------------------------------------------------
@@ -30,21 +31,30 @@ def is_client_value(t):
 
 
 def is_app_id(t):
-    """the app id of a namespace / mailbox object (plumbed by R-plumb)"""
-    if t[0] == "idof":
-        return t[2] == "_app_id" and t[1][0] == "obj" and \
-            t[1][1] in ("AppNamespace", "Mailbox")
-    return t[0] == "attr" and t[2] == "_app_id" and t[1][0] == "obj" and \
-        t[1][1] in ("AppNamespace", "Mailbox")
+    """the app id of a namespace / mailbox object (the attribute that receives
+    the key of the namespace registry through the constructor chain)"""
+    if t[0] in ("idof", "attr") and t[1][0] == "obj":
+        return names.current().app_id_attr.get(t[1][1]) == t[2]
+    return False
 
 
 def is_own_mailbox_id(t):
     """the id of a Mailbox object (created only by the get-or-create, after
     the mailbox row was ensured for its app)"""
-    if t[0] == "idof":
-        return t[2] == "_mailbox_id" and t[1][0] == "obj" and t[1][1] == "Mailbox"
-    return t[0] == "attr" and t[2] == "_mailbox_id" and t[1][0] == "obj" and \
-        t[1][1] == "Mailbox"
+    if t[0] in ("idof", "attr") and t[1][0] == "obj":
+        return (t[1][1], t[2]) == names.current().mailbox_id_attr
+    return False
+
+
+def is_conn_side(t):
+    """the side the connection was bound with"""
+    return t[0] == "attr" and t[1][0] == "obj" and t[1][1] == "WebSocketServer" and \
+        t[2] == names.current().side_attr
+
+
+def is_listeners_reg(t):
+    """a registry term denoting a Mailbox's listener table"""
+    return t[0] == "reg" and t[2] == names.current().listeners[1]
 
 
 # -- handler selection --------------------------------------------------------------
@@ -60,12 +70,49 @@ def has_call(path, callee):
     return False
 
 
+def _type_decided(pc):
+    """a (client value == string literal) test decided true: the dispatch"""
+    for (t, b, site) in pc:
+        if b and t[0] == "cmp" and t[1] == "==":
+            if is_const(t[3]) and isinstance(t[3][1], str) and is_client_value(t[2]):
+                return True
+            if is_const(t[2]) and isinstance(t[2][1], str) and is_client_value(t[3]):
+                return True
+    return False
+
+
+def assign_handlers(paths):
+    """For each onMessage path: the command handler dispatched on it -- the
+    first method of the protocol class that is called once the message type
+    was decided and that is never called before a type is decided (which
+    excludes the frame sender and any dispatch helper)."""
+    generic = set()
+    for p in paths:
+        for e in p.events:
+            if e["k"] == "call" and e["callee"].startswith("WebSocketServer.") and \
+                    not _type_decided(e["pc"]):
+                generic.add(e["callee"])
+    for p in paths:
+        p.handler = None
+        for e in p.events:
+            if e["k"] == "call" and e["callee"].startswith("WebSocketServer.") and \
+                    e["callee"] not in generic and _type_decided(e["pc"]):
+                p.handler = e["callee"].split(".")[1]
+                break
+
+
 def handler_of(path):
-    """the handle_* method dispatched on this onMessage path, or None"""
-    for e in path.events:
-        if e["k"] == "call" and e["callee"].startswith("WebSocketServer.handle_"):
-            return e["callee"].split(".")[1]
-    return None
+    """the command handler dispatched on this onMessage path, or None"""
+    return getattr(path, "handler", None)
+
+
+def is_handler_frame(model, qualname):
+    """qualname is one of the dispatched command handlers"""
+    hs = getattr(model, "_handler_names", None)
+    if hs is None:
+        hs = set("WebSocketServer." + h for v in dispatch_table(model).values() for h in v)
+        model._handler_names = hs
+    return qualname in hs
 
 
 def dispatch_table(model):
